@@ -236,8 +236,15 @@ def clamp(prog: Program, rep) -> None:
     if len(xn_store) != 1:
         raise AnalysisError("StepResult._compute_xn: no unique store to self.xn")
     var = xn_store[0].stmt.value
+    lbq, ubq = "self.orig_iterate.problem.var_lb", "self.orig_iterate.problem.var_ub"
     if not isinstance(var, ast.Name):
-        raise AnalysisError("StepResult._compute_xn: self.xn is not assigned from a local")
+        v = ff.resolved(xn_store[0].stmt, var)
+        ok = np_call(v, "clip") and len(v.args) == 3 and U(v.args[1]) == lbq and U(v.args[2]) == ubq
+        if not ok and np_call(v, "minimum") and len(v.args) == 2 and np_call(v.args[0], "maximum") and len(v.args[0].args) == 2:
+            ok = U(v.args[1]) == ubq and U(v.args[0].args[1]) == lbq
+        rep.check(ok, "accepted-step-in-box", m.qualname, short(xn_store[0].stmt),
+                  f"the new point is the component-wise clamp of x - dx into [var_lb, var_ub] (found {U(v)[:100]})", m.loc(xn_store[0].stmt))
+        return
     name = var.id
     base = None
     clamps = {"lower": False, "upper": False}
